@@ -365,7 +365,7 @@ inline bool operator<= (const Tracked &a, const Tracked &b) { return a.v <= b.v;
 inline bool operator>  (const Tracked &a, const Tracked &b) { return a.v >  b.v; }
 inline bool operator>= (const Tracked &a, const Tracked &b) { return a.v >= b.v; }
 
-struct Triv { int v; };
+struct Triv { int v; Triv () = default; /* implicit */ Triv (int x) : v (x) { } };
 inline bool operator== (const Triv &a, const Triv &b) { return a.v == b.v; }
 inline bool operator!= (const Triv &a, const Triv &b) { return a.v != b.v; }
 inline bool operator<  (const Triv &a, const Triv &b) { return a.v <  b.v; }
@@ -382,7 +382,7 @@ static inline Elem make_elem (int v) { bool l = g_logging; g_logging = false; bo
 typedef Triv Elem;
 static inline int  val_of (const Elem &e) { return e.v; }
 static inline int  mf_of (const Elem &) { return 0; }
-static inline Elem make_elem (int v) { Elem e = { v }; return e; }
+static inline Elem make_elem (int v) { Elem e (v); return e; }
 #else
 typedef int Elem;
 static inline int  val_of (const Elem &e) { return e; }
@@ -467,9 +467,15 @@ inline bool operator!= (const LedgerAlloc<T> &a, const LedgerAlloc<U> &b) noexce
 #if CFG_ALLOC == 0
 // std::allocator: observe its traffic through the global allocation functions.
 static bool g_track_new;
-static void *tracked_new (std::size_t sz)
+extern "C" char __executable_start;
+extern "C" char etext;
+// Only allocations requested from code of this translation unit (std::allocator<Elem>::allocate is
+// instantiated here) are the container's; the standard library's own allocations (e.g. the message
+// of a std::length_error / std::out_of_range, made inside libstdc++.so) are not.
+static __attribute__ ((noinline)) void *tracked_new (std::size_t sz, void *ra)
 {
-  if (g_track_new && g_logging)
+  bool ours = static_cast<char *> (ra) >= &__executable_start && static_cast<char *> (ra) < &etext;
+  if (g_track_new && g_logging && ours)
     return ledger_allocate (sz / sizeof (Elem), sizeof (Elem), 0);
   void *p = std::malloc (sz ? sz : 1);
   if (! p) throw std::bad_alloc ();
@@ -486,8 +492,8 @@ static void tracked_delete (void *p, long n)
       }
   std::free (p);
 }
-void *operator new (std::size_t sz) { return tracked_new (sz); }
-void *operator new[] (std::size_t sz) { return tracked_new (sz); }
+__attribute__ ((noinline)) void *operator new (std::size_t sz) { return tracked_new (sz, __builtin_return_address (0)); }
+__attribute__ ((noinline)) void *operator new[] (std::size_t sz) { return tracked_new (sz, __builtin_return_address (0)); }
 void operator delete (void *p) noexcept { tracked_delete (p, -1); }
 void operator delete[] (void *p) noexcept { tracked_delete (p, -1); }
 void operator delete (void *p, std::size_t sz) noexcept { tracked_delete (p, static_cast<long> (sz / sizeof (Elem))); }
@@ -942,26 +948,42 @@ static void call_range (V &v, int what, long pos, It f, It l, OpResult &res)
 }
 
 // kinds: 0 input 1 forward 2 bidirectional 3 random access 4 pointer 5 move_iterator<pointer>
-//        6 iterators of another container (std::vector here) 7 pointer to int (converting)
+//        6 iterators of another container (std::vector here)
+// Copying kinds are only instantiated for copyable element flavours.
 template <typename V>
-static bool op_range_family (V &v, const Op &op, int what, long pos, int kind, int len, OpResult &res)
+static bool range_copy_kinds (V &v, int what, long pos, int kind, int len, OpResult &res, Bool<false>)
+{ (void) v; (void) what; (void) pos; (void) kind; (void) len; (void) res; return false; }
+
+template <typename V>
+static bool range_copy_kinds (V &v, int what, long pos, int kind, int len, OpResult &res, Bool<true>)
 {
-  prepare_src (len, res);
   const Elem *b = g_src->data ();
   switch (kind)
     {
     case 0: { StreamState st = { b, len, 0, false };
-              call_range (v, what, pos, StreamIt (&st, 0), StreamIt (), res); res.ret2 = st.cur; break; }
+              struct Fin { OpResult &r; StreamState &s; ~Fin () { r.ret2 = s.cur; } } fin = { res, st };
+              call_range (v, what, pos, StreamIt (&st, 0), StreamIt (), res); break; }
     case 1: call_range (v, what, pos, WalkIt<std::forward_iterator_tag> (b, len, 0), WalkIt<std::forward_iterator_tag> (b, len, len), res); break;
     case 2: call_range (v, what, pos, WalkIt<std::bidirectional_iterator_tag> (b, len, 0), WalkIt<std::bidirectional_iterator_tag> (b, len, len), res); break;
     case 3: call_range (v, what, pos, WalkIt<std::random_access_iterator_tag> (b, len, 0), WalkIt<std::random_access_iterator_tag> (b, len, len), res); break;
     case 4: call_range (v, what, pos, b, b + len, res); break;
-    case 5: { Elem *mb = g_src->data ();
-              call_range (v, what, pos, std::make_move_iterator (mb), std::make_move_iterator (mb + len), res); break; }
     case 6: call_range (v, what, pos, g_src->cbegin (), g_src->cend (), res); break;
     default: return false;
     }
   return true;
+}
+
+template <typename V>
+static bool op_range_family (V &v, const Op &, int what, long pos, int kind, int len, OpResult &res)
+{
+  prepare_src (len, res);
+  if (kind == 5)
+    {
+      Elem *mb = g_src->data ();
+      call_range (v, what, pos, std::make_move_iterator (mb), std::make_move_iterator (mb + len), res);
+      return true;
+    }
+  return range_copy_kinds (v, what, pos, kind, len, res, Bool<ELEM_COPYABLE> ());
 }
 
 template <typename V>
@@ -1107,25 +1129,43 @@ static void op_unary (V &v, const Op &op, OpResult &res)
 }
 
 // ---- constructors of slot c
+#define CT(F, L) do { if (aid) ::new (mem) V (F, L, make_alloc (aid)); else ::new (mem) V (F, L); } while (0)
 template <typename V>
-static void construct_range (void *mem, int kind, int len, int aid, OpResult &res)
+static bool construct_copy_kinds (void *, int, int, int, OpResult &, Bool<false>) { return false; }
+template <typename V>
+static bool construct_copy_kinds (void *mem, int kind, int len, int aid, OpResult &res, Bool<true>)
 {
-  prepare_src (len, res);
   const Elem *b = g_src->data ();
   ARM ();
-#define CT(F, L) do { if (aid) ::new (mem) V (F, L, make_alloc (aid)); else ::new (mem) V (F, L); } while (0)
   switch (kind)
     {
-    case 0: { StreamState st = { b, len, 0, false }; CT (StreamIt (&st, 0), StreamIt ()); res.ret2 = st.cur; break; }
+    case 0: { StreamState st = { b, len, 0, false };
+              struct Fin { OpResult &r; StreamState &s; ~Fin () { r.ret2 = s.cur; } } fin = { res, st };
+              CT (StreamIt (&st, 0), StreamIt ()); break; }
     case 1: CT (WalkIt<std::forward_iterator_tag> (b, len, 0), WalkIt<std::forward_iterator_tag> (b, len, len)); break;
     case 2: CT (WalkIt<std::bidirectional_iterator_tag> (b, len, 0), WalkIt<std::bidirectional_iterator_tag> (b, len, len)); break;
     case 3: CT (WalkIt<std::random_access_iterator_tag> (b, len, 0), WalkIt<std::random_access_iterator_tag> (b, len, len)); break;
     case 4: CT (b, b + len); break;
-    case 5: { Elem *mb = g_src->data (); CT (std::make_move_iterator (mb), std::make_move_iterator (mb + len)); break; }
-    default: CT (g_src->cbegin (), g_src->cend ()); break;
+    case 6: CT (g_src->cbegin (), g_src->cend ()); break;
+    default: return false;
     }
-#undef CT
+  return true;
 }
+
+template <typename V>
+static void construct_range (void *mem, int kind, int len, int aid, OpResult &res)
+{
+  prepare_src (len, res);
+  if (kind == 5)
+    {
+      Elem *mb = g_src->data ();
+      ARM ();
+      CT (std::make_move_iterator (mb), std::make_move_iterator (mb + len));
+      return;
+    }
+  if (! construct_copy_kinds<V> (mem, kind, len, aid, res, Bool<ELEM_COPYABLE> ())) res.out = "skip";
+}
+#undef CT
 
 template <typename V> static void construct_copy_family (void *, const Op &, OpResult &res, Bool<false>) { res.out = "skip"; }
 template <typename V>
